@@ -142,8 +142,9 @@ def continue_cases(draw):
     if o.get("DampingTime") is None and draw(st.booleans()):
         o["DampingTime"] = 0.0
     steps = o["StepsPerTs"]
-    L1 = draw(st.one_of(st.integers(1, 4), st.integers(5, 60), st.integers(5, 60), st.integers(5, 60)))
-    L2 = draw(st.one_of(st.integers(1, 4), st.integers(5, 60), st.integers(5, 60), st.integers(5, 60)))
+    # (one_of() drops duplicate alternatives, so the weighting is drawn explicitly: one leg in six is 1-4 steps short)
+    L1 = draw(st.integers(1, 4)) if draw(st.integers(0, 5)) == 5 else draw(st.integers(5, 60))
+    L2 = draw(st.integers(1, 4)) if draw(st.integers(0, 5)) == 5 else draw(st.integers(5, 60))
     outstep = draw(st.sampled_from([1, 2, 5, max(1, L1)]))
     sel = draw(st.sampled_from([None, None, -1, -2, 0, 1, 3]))
     return dict(opts=o, L1=L1, L2=L2, outstep=outstep, startstep=sel, save2=draw(st.sampled_from([0, 1, 3])))
